@@ -324,7 +324,8 @@ def write_evidence(mod, prop, tier, seed, results, wall, n_viol, n_known,
   outside = list(getattr(mod, 'OUTSIDE', []))
   samples = []
   q = dict(sat=0, unsat=0, unknown=0, solver_s=0.0, feasibility_queries=0,
-           feasibility_unknown=0)
+           feasibility_unknown=0, cross_checked=0, cross_agree=0,
+           cross_disagree=0)
   per_job = []
   for d in results:
     for f in d.get('functions', []):
